@@ -154,11 +154,19 @@ class Sc:
 
 
 def parse_strace(path):
-    """returns (main_pid, [Sc of main thread in order of syscall ENTRY])"""
-    lines = open(path, errors="replace").read().splitlines()
+    """returns (main_pid, [Sc of the main thread in order of syscall ENTRY]).  The main
+    thread is the one that issues the BEGIN marker (fallback: the first line's pid)."""
+    try:
+        lines = open(path, errors="replace").read().splitlines()
+    except OSError:
+        lines = []
     if not lines:
-        raise vlib.HarnessError("empty strace log " + path)
+        return None, []
     main = lines[0].split()[0]
+    for l in lines:
+        if "VERIF_C05_MARK_BEGIN" in l:
+            main = l.split()[0]
+            break
     out = []
     pending = {}
     for l in lines:
@@ -284,8 +292,10 @@ def ordinal(scs, idx):
     return sum(1 for s in scs[: idx + 1] if s.name == name)
 
 
-def strace_child(child, args, log, inject=None, timeout=120):
-    cmd = ["strace", "-f", "-o", log, "-e", "trace=" + TRACE]
+def strace_child(child, args, log, inject=None, timeout=300):
+    if os.path.exists(log):
+        os.remove(log)
+    cmd = ["strace", "-f", "-o", log, "-e", "trace=" + TRACE, "-e", "signal=none"]
     if inject:
         cmd += ["-e", "inject=%s:signal=SIGKILL:when=%d" % inject]
     cmd += [child] + args
@@ -293,14 +303,36 @@ def strace_child(child, args, log, inject=None, timeout=120):
     return p.returncode, p.stdout, p.stderr
 
 
+def strace_selftest(ctx, child):
+    """exit 2 is reserved for this: strace cannot trace / inject at all on this machine."""
+    d = ctx.path("selftest", "d", "x")
+    d = os.path.dirname(d)
+    f = ctx.path("selftest", "data.bin")
+    with open(f, "wb") as fh:
+        fh.write(b"xy")
+    log = ctx.path("selftest", "t.strace")
+    rc, so, se = strace_child(child, ["op", "put", d, sha(b"selftest"), f], log)
+    main, scs = parse_strace(log)
+    if rc != 0 or not any("VERIF_C05_MARK_END" in x.args for x in scs):
+        raise vlib.HarnessError("strace self-test failed (rc=%d): %s" % (rc, se[-400:]))
+
+
 # --------------------------------------------------------------------------- scenarios (a)+(b)
+CORE_KINDS = ("absent", "complete", "index-complete-data-absent", "data-prefix-mid-index-complete", "data-prefix-mid",
+              "index-other-output")
+
+
 def make_scenarios(ctx, rng):
+    """Prepared directories for one real Put each.  quick: 3 of the sizes and, per size, the
+    core kinds plus 5 of the other kinds, rotated by the seed (cost is cut by COUNT)."""
+    all_sizes = [0, 1, 2, 5, 32769, 70000]
     if ctx.quick:
-        sizes = [0, 1, 2, 5, 32769, 70000]
+        sizes = [[0, 1, 2][ctx.seed % 3], 5, [32769, 70000][ctx.seed % 2]]
     else:
         sizes = [0, 1, 2, 3, 5, 4095, 4096, 4097, 32768, 32769, 32770, 65537, 70000, 131073]
     scen = []
-    for si, size in enumerate(sizes):
+    for size in sizes:
+        si = all_sizes.index(size) if size in all_sizes else 100 + size
         tag = "s%d-%d-%d" % (ctx.seed, si, size)
         data = gen_bytes("data" + tag, size)
         other = gen_bytes("other" + tag, size)
@@ -311,76 +343,116 @@ def make_scenarios(ctx, rng):
         dn, an = out + "-d", idhex + "-a"
         old_ts = 1700000000000000000 + rng.below(10 ** 9)
         good_a = entry(idhex, out, size, old_ts)
+        cand = []
 
         def add(name, files, reachable=True, stored=None):
-            scen.append({"name": "%s/size%d" % (name, size), "size": size, "data": data, "id": idhex,
+            cand.append({"name": "%s/size%d" % (name, size), "kind": name, "size": size, "data": data, "id": idhex,
                          "files": files, "reachable": reachable, "stored": [data] + (stored or [])})
 
         add("absent", {})
         add("complete", {dn: data, an: good_a})
         add("data-complete-index-absent", {dn: data})
+        # a complete store, then the data file removed / truncated at rest with the index
+        # intact, then a store of the same content ("re-Put over a damaged entry")
         add("index-complete-data-absent", {an: good_a})
-        plens = sorted(set([0, 1, size - 1, size // 2, rng.below(size + 1)]) & set(range(0, size)))
+        if size > 0:
+            mid = size // 2
+            add("data-prefix-mid", {dn: data[:mid]})
+            add("data-prefix-mid-index-complete", {dn: data[:mid], an: good_a})
+        plens = sorted(set([0, 1, size - 1, rng.below(size + 1)]) & set(range(0, size)) - set([size // 2]))
         if not ctx.quick:
             plens = sorted(set(plens) | (set([32768, 32769, 65536]) & set(range(0, size))))
         for pl in plens:
             add("data-prefix%d" % pl, {dn: data[:pl]})
-            if pl in (size - 1, size // 2):
+            if pl == size - 1:
                 add("data-prefix%d-index-complete" % pl, {dn: data[:pl], an: good_a})
-        # states the protocol cannot produce (correspondence only, no oracle)
+        # states the protocol cannot produce: no lookup oracle on the way, but a COMPLETED Put
+        # must repair them all (theorem put_repairs needs no invariant)
         add("data-longer-garbage", {dn: data + b"xyz"}, reachable=False)
+        add("data-longer-garbage-index-complete", {dn: data + b"xyz", an: good_a}, reachable=False)
         if size > 0:
             add("data-wrong-same-size", {dn: other}, reachable=False)
             add("data-wrong-same-size-index-complete", {dn: other, an: good_a}, reachable=False)
-        # index file variants
         for cut in sorted(set([0, 1, 100, 174, rng.below(175)])):
             add("index-prefix%d" % cut, {dn: data, an: good_a[:cut]})
         add("index-longer-garbage", {dn: data, an: good_a + b"garbage garbage\n"}, reachable=False)
-        # an older entry of the same action id for another output (repeated action with a
-        # different result): both contents were stored under the key
         odata = gen_bytes("old" + tag, size + 3)
         add("index-other-output", {sha(odata) + "-d": odata, an: entry(idhex, sha(odata), len(odata), old_ts)},
             stored=[odata])
+        if ctx.quick:
+            core = [c for c in cand if c["kind"] in CORE_KINDS]
+            rest = rng.shuffle([c for c in cand if c["kind"] not in CORE_KINDS])
+            cand = core + rest[:5]
+        scen += cand
     return scen
 
 
+def flaky_scenarios(ctx, rng):
+    """Put from a source whose second pass yields other bytes (hash re-check before the last byte)."""
+    scen = []
+    for size in ([5, 32770] if ctx.quick else [1, 2, 5, 32769, 32770, 70000]):
+        tag = "fl%d-%d" % (ctx.seed, size)
+        data = gen_bytes("data" + tag, size)
+        pos = rng.below(size)
+        data2 = data[:pos] + bytes([data[pos] ^ 0x55]) + data[pos + 1:]
+        idhex = sha(("id" + tag).encode())
+        scen.append({"name": "flaky-source-absent/size%d" % size, "kind": "flaky-source", "size": size, "data": data,
+                     "data2": data2, "id": idhex, "files": {}, "reachable": True, "stored": [data], "flaky": True})
+        if size > 1:
+            scen.append({"name": "flaky-source-prefix/size%d" % size, "kind": "flaky-source", "size": size, "data": data,
+                         "data2": data2, "id": idhex, "files": {sha(data) + "-d": data[:size // 2]}, "reachable": True,
+                         "stored": [data], "flaky": True})
+    return scen
+
+
+def files_json(files):
+    return {k: (v.hex() if len(v) <= 400 else "sha256:%s:len%d" % (sha(v), len(v))) for k, v in files.items()}
+
+
 def run_scenarios(ctx, child, scen):
-    """tie (a) and (b). Returns dict with counts and the list of disagreements."""
-    base = ctx.path("sc", "x")
-    base = os.path.dirname(base)
-    jobs = []
+    """tie (a) and (b).  Nothing here assumes that the real Put follows the model: every
+    deviation (other system calls, a Put that fails or crashes, a kill that cannot be placed
+    where the plain run had the call) is recorded as a correspondence item; the oracle is
+    evaluated on every directory that results."""
+    base = os.path.dirname(ctx.path("sc", "x"))
     for k, sc in enumerate(scen):
         sc["dir"] = os.path.join(base, "s%d" % k)
         os.makedirs(sc["dir"], exist_ok=True)
         sc["datafile"] = os.path.join(sc["dir"], "data.bin")
         with open(sc["datafile"], "wb") as f:
             f.write(sc["data"])
+        if sc.get("flaky"):
+            sc["data2file"] = os.path.join(sc["dir"], "data2.bin")
+            with open(sc["data2file"], "wb") as f:
+                f.write(sc["data2"])
+
+    def put_args(sc, d):
+        if sc.get("flaky"):
+            return ["op", "putflaky", d, sc["id"], sc["datafile"], sc["data2file"]]
+        return ["op", "put", d, sc["id"], sc["datafile"]] + sc["mode"]
 
     def plain(sc):
         d = os.path.join(sc["dir"], "full")
         os.makedirs(d)
         write_state(d, sc["files"])
         log = os.path.join(sc["dir"], "full.strace")
-        mode = ["file"] if (sc["size"] % 2 == 1) else []
-        rc, so, se = strace_child(child, ["op", "put", d, sc["id"], sc["datafile"]] + mode, log)
-        if rc != 0 or not so.startswith("put ok"):
-            raise vlib.HarnessError("plain put failed in %s: rc=%d %s %s" % (sc["name"], rc, so[:200], se[-300:]))
+        sc["mode"] = ["file"] if (sc["size"] % 2 == 1 and not sc.get("flaky")) else []
+        rc, so, se = strace_child(child, put_args(sc, d), log)
         main, scs = parse_strace(log)
         ops, points = window_ops(scs)
-        sc["mode"] = mode
-        sc["scs"] = scs
-        sc["ops"] = ops
-        sc["points"] = points
+        sc["put_rc"], sc["put_out"], sc["put_err"] = rc, so.strip(), se[-300:]
+        sc["complete_trace"] = any(p[2] == "END" for p in points)
+        sc["scs"], sc["ops"], sc["points"] = scs, ops, points
         sc["final"] = read_state(d)
         return sc
 
     with ThreadPoolExecutor(max_workers=WORKERS) as ex:
         list(ex.map(plain, scen))
 
-    # crash points: on entering each operation after the first, and the END marker
     cjobs = []
     for sc in scen:
-        sc["crash"] = []
+        if not sc["complete_trace"]:
+            continue
         for (idx, nops, what) in sc["points"]:
             if nops == 0:
                 continue  # nothing happened yet: the initial state
@@ -388,87 +460,122 @@ def run_scenarios(ctx, child, scen):
 
     def crash(job):
         sc, idx, nops, what = job
-        d = os.path.join(sc["dir"], "c%d" % idx)
-        os.makedirs(d)
-        write_state(d, sc["files"])
-        log = os.path.join(sc["dir"], "c%d.strace" % idx)
         name = sc["scs"][idx].name
         n = ordinal(sc["scs"], idx)
-        rc, so, se = strace_child(child, ["op", "put", d, sc["id"], sc["datafile"]] + sc["mode"], log, inject=(name, n))
-        # verify the kill happened where intended
-        main, scs = parse_strace(log)
-        mine = scs
-        ok = bool(mine) and mine[-1].name == name and len([x for x in mine if x.name == name]) == n and so == ""
-        if not ok:
-            raise vlib.HarnessError("kill injection did not land on %s #%d in %s (rc=%d, out=%r)" % (name, n, sc["name"], rc, so[:80]))
-        return (sc, idx, nops, what, read_state(d), d)
+        why = ""
+        for attempt in range(3):
+            d = os.path.join(sc["dir"], "c%d_%d" % (idx, attempt))
+            os.makedirs(d)
+            write_state(d, sc["files"])
+            log = os.path.join(sc["dir"], "c%d_%d.strace" % (idx, attempt))
+            rc, so, se = strace_child(child, put_args(sc, d), log, inject=(name, n))
+            main, mine = parse_strace(log)
+            kops, _ = window_ops(mine)
+            landed = bool(mine) and mine[-1].name == name and len([x for x in mine if x.name == name]) == n \
+                and so == "" and rc == -9
+            if landed and kops[:nops] == sc["ops"][:nops]:
+                return (sc, idx, nops, what, read_state(d), d, None)
+            why = "rc=%s out=%r last=%s ops_before_kill=%s" % (rc, so[:60], mine[-1].name if mine else None, kops[:nops + 1])
+        return (sc, idx, nops, what, None, None, why)
 
     with ThreadPoolExecutor(max_workers=WORKERS) as ex:
-        cres = list(ex.map(crash, cjobs))
+        cres_all = list(ex.map(crash, cjobs))
+    cres = [c for c in cres_all if c[4] is not None]
 
     # real lookups on every resulting directory (one batch child)
     dirs = []
     for sc in scen:
         dirs.append((sc, "full", os.path.join(sc["dir"], "full")))
-    for (sc, idx, nops, what, st, d) in cres:
+    for (sc, idx, nops, what, st, d, _) in cres:
         dirs.append((sc, idx, d))
     script = []
     for (sc, _, d) in dirs:
         script.append("open " + d)
         script.append("look " + sc["id"])
-    rc, so, se = vlib.run([child, "batch"], input="\n".join(script) + "\n", timeout=600)
-    if rc != 0:
-        raise vlib.HarnessError("batch lookups failed: " + se[-500:])
+    rc, so, se = vlib.run([child, "batch"], input="\n".join(script) + "\n", timeout=1800)
     outs = so.splitlines()
+    if rc != 0 or len(outs) != len(script):
+        raise vlib.HarnessError("batch lookups failed: " + se[-500:])
     looks = {}
     for j, (sc, key, d) in enumerate(dirs):
         looks[(id(sc), key)] = outs[2 * j + 1]
 
-    # the model on the same inputs
+    def ts_of(st, sc, changed_only):
+        a = st.get(sc["id"] + "-a", b"")
+        if len(a) >= 174 and (not changed_only or a != sc["files"].get(sc["id"] + "-a")):
+            try:
+                return int(a[154:174].decode().strip())
+            except ValueError:
+                return 0
+        return 0
+
+    def model_line(sc, ts, nsteps, k):
+        if sc.get("flaky"):
+            return "flaky %d %d %s %s %s %s %d %s" % (CS, ts, sc["id"], hexs(sc["data"]), hexs(sc["data2"]),
+                                                     files_arg(sc["files"]), nsteps, k)
+        return "put %d %d %s %s %s %d %s" % (CS, ts, sc["id"], hexs(sc["data"]), files_arg(sc["files"]), nsteps, k)
+
     lines = []
     meta = []
     for sc in scen:
-        fin = sc["final"]
-        a = fin.get(sc["id"] + "-a", b"")
-        ts = 0
-        if len(a) == 175:
-            try:
-                ts = int(a[154:174].decode().strip())
-            except ValueError:
-                ts = 0
-        sc["ts"] = ts
-        lines.append("put %d %d %s %s %s %d -" % (CS, ts, sc["id"], hexs(sc["data"]), files_arg(sc["files"]), 10 ** 6))
-        meta.append((sc, "full", fin, None))
-    for (sc, idx, nops, what, st, d) in cres:
-        # the time stamp, if the index entry was written before the kill
-        a = st.get(sc["id"] + "-a", b"")
-        ts = 0
-        if len(a) >= 174 and a != sc["files"].get(sc["id"] + "-a"):
-            try:
-                ts = int(a[154:174].decode().strip())
-            except ValueError:
-                ts = 0
-        lines.append("put %d %d %s %s %s %d 0" % (CS, ts, sc["id"], hexs(sc["data"]), files_arg(sc["files"]), nops))
+        lines.append(model_line(sc, ts_of(sc["final"], sc, False), 10 ** 6, "-"))
+        meta.append((sc, "full", sc["final"], None))
+    for (sc, idx, nops, what, st, d, _) in cres:
+        lines.append(model_line(sc, ts_of(st, sc, True), nops, "0"))
         meta.append((sc, idx, st, what))
     mouts = run_model_parallel(ctx, lines)
 
-    res = {"seq_diffs": [], "state_diffs": [], "look_diffs": [], "oracle": [], "complete_miss": [],
-           "children": len(scen) + len(cres), "crash_children": len(cres), "nontrivial": set(), "samples": []}
+    res = {"seq_diffs": [], "state_diffs": [], "look_diffs": [], "oracle": [], "complete_miss": [], "put_failed": [],
+           "kill_landing": [], "no_repair": [],
+           "children": len(scen) + len(cres_all), "crash_children": len(cres_all), "nontrivial": set(), "samples": []}
+    for (sc, idx, nops, what, st, d, why) in cres_all:
+        if st is None:
+            res["kill_landing"].append({"scenario": sc["name"], "kill_before": what, "after_ops": nops, "observed": why})
     for (sc, key, st, what), mo in zip(meta, mouts):
-        ops, pc, mfiles, mlook = parse_model_put(mo)
+        m = re.match(r"ops=(\S+) pc=(\S+) files=(\S+) (get=\S+ getfile=\S+ getbytes=\S+) (outfile=\S+)$", mo)
+        if not m:
+            raise vlib.HarnessError("unexpected model output: " + mo[:200])
+        ops = [] if m.group(1) == "-" else m.group(1).split(",")
+        pc, mfiles, mlook, mout = m.group(2), sort_listing(m.group(3)), m.group(4), m.group(5)
         rlook = looks[(id(sc), key)]
         rfiles = digest_listing(st)
         stored = set((sha(b), len(b)) for b in sc["stored"])
+        want = (sha(sc["data"]), len(sc["data"]))
+        case = {"scenario": sc["name"], "id": sc["id"], "size": sc["size"], "initial_files": files_json(sc["files"]),
+                "data": sc["data"].hex() if sc["size"] <= 400 else "sha256:%s:len%d" % want,
+                "files": files_json(sc["files"]), "stored": sorted(stored)}
         if key == "full":
+            if not sc["complete_trace"] or sc["put_rc"] != 0:
+                res["put_failed"].append(dict(case, rc=sc["put_rc"], out=sc["put_out"][:200], stderr=sc["put_err"]))
             if ops != sc["ops"]:
                 res["seq_diffs"].append({"scenario": sc["name"], "real_ops": sc["ops"], "model_ops": ops})
             if len(res["samples"]) < 6:
-                res["samples"].append({"scenario": sc["name"], "ops": sc["ops"], "look": rlook})
+                res["samples"].append({"scenario": sc["name"], "ops": sc["ops"], "look": rlook, "put": sc["put_out"][:120]})
             if sc["files"]:
                 res["nontrivial"].add((sc["name"], "full"))
-            # completeness (put_then_get): after a completed put every lookup hits
-            if "miss" in rlook or "openerr" in rlook:
-                res["complete_miss"].append({"scenario": sc["name"], "look": rlook})
+            if sc["put_out"].startswith("put ok"):
+                # ORACLE (put_repairs): a Put that returned success left a complete entry, whatever
+                # was in the directory before: the path OutputFile(out) reads the content (this is
+                # what lintcmd/runner opens after Put) and every lookup hits with it.
+                toks = sc["put_out"].split()
+                routfile = toks[4] if len(toks) > 4 else "outfile=?"
+                bad = []
+                if routfile != "outfile=hit:%s:%d" % want:
+                    bad.append("OutputFile path read after Put: " + routfile)
+                for api in ("getfile", "getbytes"):
+                    if ("%s=hit:%s:%d" % ((api,) + want)) not in rlook.split():
+                        bad.append("lookup after Put: " + rlook)
+                        break
+                if sc.get("flaky"):
+                    bad.append("Put returned success although the source changed between its two passes")
+                if bad:
+                    res["no_repair"].append(dict(case, put=sc["put_out"][:200], problems=bad, look=rlook, dir=rfiles))
+                if "miss" in rlook or "openerr" in rlook:
+                    res["complete_miss"].append({"scenario": sc["name"], "look": rlook})
+                if routfile != mout and not bad:
+                    res["look_diffs"].append({"scenario": sc["name"], "killed_before": None, "real": routfile, "model": mout})
+            elif not sc.get("flaky"):
+                res["put_failed"].append(dict(case, rc=sc["put_rc"], out=sc["put_out"][:200], stderr=sc["put_err"]))
         else:
             if what.startswith("write") or what.startswith("open:A") or what.startswith("ftrunc") or sc["files"]:
                 res["nontrivial"].add((sc["name"], key))
@@ -480,11 +587,8 @@ def run_scenarios(ctx, child, scen):
         if sc["reachable"]:
             for (api, h, n) in look_hits(rlook):
                 if (h, n) not in stored:
-                    res["oracle"].append({"scenario": sc["name"], "killed_before": what, "api": api,
-                                          "returned_sha256": h, "returned_len": n,
-                                          "stored": sorted(stored), "look": rlook, "dir": rfiles,
-                                          "initial_files": {k: (len(v), sha(v)) for k, v in sc["files"].items()},
-                                          "id": sc["id"], "size": sc["size"]})
+                    res["oracle"].append(dict(case, killed_before=what, api=api, returned_sha256=h, returned_len=n,
+                                              look=rlook, dir=rfiles))
     return res
 
 
@@ -493,9 +597,16 @@ def faults_at_rest(ctx, child, rng):
     """Truncations / removals / half-written index entries on a directory at rest.
     Every case: direct construction of the directory state, real lookups (batch child),
     model lookups, oracle."""
-    sizes = [0, 1, 2, 7, 100, 4096] if ctx.quick else [0, 1, 2, 3, 7, 64, 100, 175, 176, 1000, 4096, 32769, 70000]
+    if ctx.quick:
+        sizes = [[0, 1, 2][ctx.seed % 3], [7, 100][ctx.seed % 2], 4096]
+    else:
+        sizes = [0, 1, 2, 3, 7, 64, 100, 175, 176, 1000, 4096, 32769, 70000]
     cases = []  # (desc, idhex, files, stored list)
     for si, size in enumerate(sizes):
+        # quick: every index length / every torn-write position for ONE of the sizes (rotates
+        # with the seed), 30 sampled positions (incl. all field boundaries) for the others
+        full = (not ctx.quick) or si == ctx.seed % len(sizes)
+        bnd = [0, 1, 2, 3, 66, 67, 68, 131, 132, 133, 152, 153, 154, 173, 174, 175]
         tag = "f%d-%d-%d" % (ctx.seed, si, size)
         data = gen_bytes("data" + tag, size)
         idhex = sha(("id" + tag).encode())
@@ -508,7 +619,8 @@ def faults_at_rest(ctx, child, rng):
         st = [data]
         cases.append(("complete/size%d" % size, idhex, {dn: data, an: good}, st))
         # index truncated to every length
-        for cut in range(0, 175):
+        cuts = range(0, 175) if full else sorted(set([b for b in bnd if b < 175] + [rng.below(175) for _ in range(14)]))
+        for cut in cuts:
             cases.append(("index-trunc%d/size%d" % (cut, size), idhex, {dn: data, an: good[:cut]}, st))
         # data truncated
         if size <= 200:
@@ -527,7 +639,7 @@ def faults_at_rest(ctx, child, rng):
             a, b = rng.below(176), rng.below(size + 1)
             cases.append(("both-trunc%d-%d/size%d" % (a, b, size), idhex, {dn: data[:b], an: good[:a]}, st))
         # writer died inside the index write, over an older complete entry (same output)
-        for k in range(0, 176):
+        for k in (range(0, 176) if full else sorted(set(bnd + [rng.below(176) for _ in range(14)]))):
             cases.append(("index-half%d/size%d" % (k, size), idhex, {dn: data, an: new[:k] + good[k:]}, st))
         # ... over an older entry for ANOTHER output of the same action (shorter / longer / equal size)
         for dlen in sorted(set([max(0, size - 1), size, size + 1, size + 1000])):
@@ -601,6 +713,201 @@ def faults_at_rest(ctx, child, rng):
     return res
 
 
+# --------------------------------------------------------------------------- (c2) histories
+AGES = [1800, 7200, 430000, 440000, 600000]  # seconds; >= 30 min away from the 1 h / 5 d + 1 h thresholds
+
+
+def gen_history(rng, hi, nops):
+    """One directory, 2 action ids x 3 contents each (several contents per action id), ops:
+    complete Put, truncation / removal at rest of data and index files, lookups, ageing
+    (utime) + a complete Trim.  Returns the op list; every op is a dict."""
+    ids = [sha(("hid%d-%d" % (hi, j)).encode()) for j in range(2)]
+    sizes = [rng.choice([0, 1, 2, 9, 190, 1100, 4097]) for _ in range(3)]
+    conts = [gen_bytes("hc%d-%d" % (hi, j), sizes[j]) for j in range(3)]
+    if rng.chance(1, 2):
+        conts[1] = conts[0] + b"!" if conts[0] else b"!"          # shares a prefix, one byte longer
+    flen = {}      # basename -> current length (puts complete and repair, so this is exact)
+    ops = []
+    for _ in range(nops):
+        x = rng.below(100)
+        live_d = [n for n in flen if n.endswith("-d")]
+        live_a = [n for n in flen if n.endswith("-a")]
+        if x < 34 or not flen:
+            i, c = rng.choice(ids), rng.choice(conts)
+            ops.append({"op": "put", "id": i, "data": c})
+            flen[sha(c) + "-d"] = len(c)
+            flen[i + "-a"] = 175
+        elif x < 50 and live_d:
+            n = rng.choice(live_d)
+            if flen[n] > 0:
+                k = rng.below(flen[n])
+                ops.append({"op": "trunc", "name": n, "len": k})
+                flen[n] = k
+        elif x < 57 and live_d:
+            n = rng.choice(live_d)
+            ops.append({"op": "rm", "name": n})
+            del flen[n]
+        elif x < 63 and live_a:
+            n = rng.choice(live_a)
+            k = rng.below(flen[n]) if flen[n] > 0 else 0
+            if flen[n] > 0:
+                ops.append({"op": "trunc", "name": n, "len": k})
+                flen[n] = k
+        elif x < 67 and live_a:
+            n = rng.choice(live_a)
+            ops.append({"op": "rm", "name": n})
+            del flen[n]
+        elif x < 88:
+            ops.append({"op": "look", "id": rng.choice(ids)})
+        else:
+            for n in sorted(flen):
+                if rng.chance(2, 3):
+                    ops.append({"op": "age", "name": n, "age": rng.choice(AGES)})
+            if rng.chance(1, 2):
+                ops.append({"op": "look", "id": rng.choice(ids)})   # `used` bumps what it touches
+            ops.append({"op": "trim"})
+            # which files survive is decided by the real code / the model, not tracked here:
+            # stop truncating after a trim (lengths unknown), keep putting and looking
+            flen = {}
+    ops.append({"op": "look", "id": ids[0]})
+    ops.append({"op": "look", "id": ids[1]})
+    return ops
+
+
+def run_history_real(child, d, ops):
+    """runs the ops through the real code (one batch child on an empty directory) and returns
+    the per-op results in the model's format plus the time stamps of the puts"""
+    script = ["open " + d, "clear"]
+    for o in ops:
+        if o["op"] == "put":
+            script.append("put %s %s" % (o["id"], hexs(o["data"])))
+        elif o["op"] == "trunc":
+            script.append("trunc %s %d" % (o["name"], o["len"]))
+        elif o["op"] == "rm":
+            script.append("rm " + o["name"])
+        elif o["op"] == "age":
+            script.append("age %s %d" % (o["name"], o["age"]))
+        elif o["op"] == "look":
+            script.append("look " + o["id"])
+        elif o["op"] == "trim":
+            script.append("trim")
+            script.append("ls")
+    rc, so, se = vlib.run([child, "batch"], input="\n".join(script) + "\n", timeout=1200)
+    outs = so.splitlines()
+    if rc != 0 or len(outs) != len(script):
+        raise vlib.HarnessError("batch (history) failed: rc=%d %s" % (rc, se[-400:]))
+    res = []
+    j = 2
+    for o in ops:
+        r = outs[j]
+        j += 1
+        if o["op"] == "put":
+            t = r.split()
+            if t[0] == "ok" and len(t) >= 5:
+                o["ts"] = int(t[3]) if t[3].isdigit() else 0
+                res.append("put=done:" + t[4].split("=", 1)[1])
+            else:
+                o["ts"] = 0
+                res.append("put=" + r)
+        elif o["op"] == "trim":
+            res.append("files=" + sort_listing(outs[j]))
+            j += 1
+        elif o["op"] in ("trunc", "rm", "age"):
+            res.append("ok" if r == "ok" else "real-" + r)
+        else:
+            res.append(r)
+    return res
+
+
+def history_model_line(ops):
+    toks = []
+    for o in ops:
+        if o["op"] == "put":
+            toks.append("p:%s:%s:%d" % (o["id"], hexs(o["data"]), o.get("ts", 0)))
+        elif o["op"] == "trunc":
+            toks.append("t:%s%s:%d" % (o["name"][-1], o["name"][:-2], o["len"]))
+        elif o["op"] == "rm":
+            toks.append("r:%s%s" % (o["name"][-1], o["name"][:-2]))
+        elif o["op"] == "age":
+            toks.append("a:%s%s:%d" % (o["name"][-1], o["name"][:-2], o["age"]))
+        elif o["op"] == "look":
+            toks.append("l:" + o["id"])
+        elif o["op"] == "trim":
+            toks.append("trim")
+    return "hist %d %s" % (CS, ";".join(toks))
+
+
+def history_oracle(ops, real):
+    """the property on the real results: a Put that returned success is followed by a complete
+    entry (its OutputFile path reads the content); a hit is a content stored under that id."""
+    bad = []
+    stored = {}
+    for k, (o, r) in enumerate(zip(ops, real)):
+        if o["op"] == "put":
+            stored.setdefault(o["id"], set()).add((sha(o["data"]), len(o["data"])))
+            if r != "put=done:hit:%s:%d" % (sha(o["data"]), len(o["data"])):
+                bad.append({"op_index": k, "op": "put", "id": o["id"], "expected": "ok + OutputFile path reads the content",
+                            "got": r})
+        elif o["op"] == "look":
+            for (api, h, n) in look_hits(r):
+                if (h, n) not in stored.get(o["id"], set()):
+                    bad.append({"op_index": k, "op": "look", "id": o["id"], "api": api, "returned_sha256": h,
+                                "returned_len": n, "stored": sorted(stored.get(o["id"], set())), "got": r})
+    return bad
+
+
+def ops_json(ops):
+    return [dict(o, data=o["data"].hex()) if "data" in o else dict(o) for o in ops]
+
+
+def ops_from_json(js):
+    return [dict(o, data=bytes.fromhex(o["data"])) if "data" in o else dict(o) for o in js]
+
+
+def histories(ctx, child, rng, count=None):
+    n = count or (48 if ctx.quick else 400)
+    hs = [gen_history(rng.fork("h%d" % i), i, 10 + rng.below(8)) for i in range(n)]
+    # fixed regression histories first: re-Put over a damaged entry, all damage kinds
+    c = gen_bytes("fixed-hist", 300)
+    i0 = sha(b"fixed-hist-id")
+    for dmg in ([{"op": "trunc", "name": sha(c) + "-d", "len": k} for k in (0, 1, 150, 299)]
+                + [{"op": "rm", "name": sha(c) + "-d"}, {"op": "rm", "name": i0 + "-a"},
+                   {"op": "trunc", "name": i0 + "-a", "len": 100}]):
+        hs.insert(0, [{"op": "put", "id": i0, "data": c}, dmg, {"op": "look", "id": i0},
+                      {"op": "put", "id": i0, "data": c}, {"op": "look", "id": i0}])
+    base = os.path.dirname(ctx.path("hist", "x"))
+
+    def one(k):
+        d = os.path.join(base, "h%d" % k)
+        os.makedirs(d, exist_ok=True)
+        return run_history_real(child, d, hs[k])
+
+    with ThreadPoolExecutor(max_workers=WORKERS) as ex:
+        reals = list(ex.map(one, range(len(hs))))
+    models = run_model_parallel(ctx, [history_model_line(h) for h in hs])
+    res = {"count": len(hs), "ops": sum(len(h) for h in hs), "diffs": [], "oracle": [], "kinds": {}, "trims": 0, "multi": 0}
+    for k, (h, r, m) in enumerate(zip(hs, reals, models)):
+        for o in h:
+            res["kinds"][o["op"]] = res["kinds"].get(o["op"], 0) + 1
+        per_id = {}
+        for o in h:
+            if o["op"] == "put":
+                per_id.setdefault(o["id"], set()).add(o["data"])
+        if any(len(v) > 1 for v in per_id.values()):
+            res["multi"] += 1
+        ml = m.split("|")
+        if ml != r:
+            first = next((j for j in range(min(len(ml), len(r))) if ml[j] != r[j]), min(len(ml), len(r)))
+            res["diffs"].append({"history": k, "first_differing_op": first,
+                                 "op": ops_json(h)[first] if first < len(h) else None,
+                                 "real": r[first] if first < len(r) else None, "model": ml[first] if first < len(ml) else None,
+                                 "ops": ops_json(h)})
+        bad = history_oracle(h, r)
+        if bad:
+            res["oracle"].append({"history": k, "ops": ops_json(h), "problems": bad[:5], "real_results": r})
+    return res
+
+
 # --------------------------------------------------------------------------- (d) concurrency
 def age_all(d, days=6):
     t = time.time() - days * 86400
@@ -614,15 +921,23 @@ def age_all(d, days=6):
 
 
 def concurrency(ctx, child, rng):
-    rounds = 3 if ctx.quick else 12
+    rounds = 2 if ctx.quick else 12
     nops = 150 if ctx.quick else 400
-    res = {"rounds": [], "viol": [], "hits": 0, "misses": 0, "openerr": 0, "killed": 0, "procs": 0}
-    for r in range(rounds):
+    if ctx.quick and ctx.seed % 2:
+        rounds, first = 3, 1      # rounds 1,2 (the multi-content round first); even seeds: rounds 0,1
+    else:
+        first = 0
+    res = {"rounds": [], "viol": [], "window": [], "hits": 0, "misses": 0, "openerr": 0, "killed": 0, "procs": 0}
+    for r in range(first, rounds):
         d = ctx.path("conc", "r%d" % r, "x")
         d = os.path.dirname(d)
         k = [2, 3, 4, 6, 8][r % 5]
         nkeys = [10, 20, 5][r % 3]
-        phases = [("fresh", ["w", "wr", "r", "wr"]), ("aged", ["wrt", "t", "wr", "r", "wt"])]
+        # 'x' = writer that stores one of three contents under the key (several contents per action id)
+        if r % 2 == 0:
+            phases = [("fresh", ["w", "wr", "r", "wr"]), ("aged", ["wrt", "t", "wr", "r", "wt"])]
+        else:
+            phases = [("fresh", ["x", "xr", "r", "wr"]), ("aged", ["xrt", "t", "xr", "r", "wt"])]
         for (pname, roles) in phases:
             if pname == "aged":
                 age_all(d)
@@ -637,7 +952,7 @@ def concurrency(ctx, child, rng):
             nk = 1 + rng.below(2)
             for _ in range(nk):
                 time.sleep(0.02 + rng.below(60) / 1000.0)
-                cand = [x for x in procs if x[0].poll() is None and "w" in x[1]]
+                cand = [x for x in procs if x[0].poll() is None and ("w" in x[1] or "x" in x[1])]
                 if cand:
                     victim = rng.choice(cand)
                     victim[0].send_signal(signal.SIGKILL)
@@ -651,8 +966,14 @@ def concurrency(ctx, child, rng):
                 res["procs"] += 1
                 for line in so.splitlines():
                     if line.startswith("VIOL"):
-                        res["viol"].append({"round": r, "phase": pname, "k": k, "nkeys": nkeys, "role": role,
-                                            "worker_seed": seed, "nops": nops, "line": line})
+                        item = {"round": r, "phase": pname, "k": k, "nkeys": nkeys, "role": role,
+                                "worker_seed": seed, "nops": nops, "line": line}
+                        # the GetFile-then-open window (finding getfile-window): only a GetFile path
+                        # that reads a STRICT PREFIX of a stored content while trimmers run
+                        if line.startswith("VIOL getfile-prefix") and pname == "aged":
+                            res["window"].append(item)
+                        else:
+                            res["viol"].append(item)
                     m = re.match(r"DONE puts=(\d+) puterr=(\d+) hits=(\d+) misses=(\d+) openerr=(\d+) trims=(\d+) viol=(\d+)", line)
                     if m:
                         res["hits"] += int(m.group(3))
